@@ -1,6 +1,6 @@
 (* C01 correspondence harness: the Python driver writes observed implementation behaviour as [case] terms,
    [chk] evaluates the SAME model definitions the theorems are about (vm_compute). *)
-From Miller Require Import Base.Bytes Base.Record C01.Model C01.ModelJson C01.ModelXtab.
+From Miller Require Import Base.Bytes Base.Record C01.Model C01.ModelJson C01.ModelXtab C01.ModelLite.
 Open Scope char_scope.
 
 (* compact literals for the generated case files: bytes as a hex string (parses much faster than a list of numbers) *)
@@ -32,7 +32,7 @@ Definition obytes_eqb (a b : option bytes) : bool :=
 Definition orecs_eqb (a b : option (list record)) : bool :=
   match a, b with Some x, Some y => records_eqb x y | None, None => true | _, _ => false end.
 
-(* formats: 0 tsv, 1 dkvp, 2 nidx, 3 csv, 4 json, 5 xtab *)
+(* formats: 0 tsv, 1 dkvp, 2 nidx, 3 csv, 4 json, 5 xtab, 6 csvlite, 7 pprint *)
 Definition model_write (fmt : N) (f : list bool) (s : list bytes) (recs : list record) : option bytes :=
   match fmt with
   | 0%N => write_tsv (fl f 0) (fl f 1) recs
@@ -40,6 +40,7 @@ Definition model_write (fmt : N) (f : list bool) (s : list bytes) (recs : list r
   | 2%N => Some (write_nidx (sp s 0) (fl f 0) recs)
   | 3%N => write_csv (fl f 0) (fl f 1) (fl f 2) (comma_of s) recs
   | 4%N => Some (write_json (fl f 0) (fl f 1) recs)
+  | 6%N => Some (write_csvlite (sp s 0) (fl f 0) (fl f 1) recs)
   | _ => None
   end.
 
@@ -57,6 +58,8 @@ Definition model_read (fmt : N) (f : list bool) (s : list bytes) (text : bytes) 
   (* JSON: the RFC-8259 reference covers flat objects with string members; anything else is not compared *)
   | 4%N => match read_json_ref text with None => None | Some r => Some (Some r) end
   | 5%N => Some (read_xtab (sp s 0) (fl f 0) text)
+  | 6%N => Some (read_csvlite (sp s 0) (fl f 0) (fl f 1) text)
+  | 7%N => Some (read_pprint (fl f 0) (fl f 1) text)
   | _ => Some None
   end.
 
@@ -68,6 +71,7 @@ Fixpoint width_of (t : list (bytes * N)) (s : bytes) : nat :=
 Definition model_write_w (fmt : N) (f : list bool) (s : list bytes) (t : list (bytes * N)) (recs : list record) : option bytes :=
   match fmt with
   | 5%N => Some (write_xtab (width_of t) (sp s 0) (fl f 0) recs)
+  | 7%N => Some (write_pprint (width_of t) (fl f 0) (fl f 1) recs)
   | _ => None
   end.
 
